@@ -103,6 +103,30 @@ fn marlin_comm_lin(a: Fr, c1: &ark_poly_commit::marlin_pc::Commitment<Bls12_381>
     Some(ark_poly_commit::marlin_pc::Commitment { comm: KC(g1_lin(a, &c1.comm.0, b, &c2.comm.0)), shifted_comm: shifted })
 }
 
+/// a*c1 + b*c2 with kzg10::Commitment's own `+= (scalar, &commitment)`: once accumulated from the empty commitment, once in the
+/// other order (the accumulator is not the identity when the second term arrives, in either order)
+fn kzg_lin_lib(a: Fr, c1: &ark_poly_commit::kzg10::Commitment<Bls12_381>, b: Fr, c2: &ark_poly_commit::kzg10::Commitment<Bls12_381>)
+    -> Vec<ark_poly_commit::kzg10::Commitment<Bls12_381>> {
+    use ark_poly_commit::PCCommitment;
+    let mut x = ark_poly_commit::kzg10::Commitment::<Bls12_381>::empty();
+    x += (a, c1);
+    x += (b, c2);
+    let mut y = ark_poly_commit::kzg10::Commitment::<Bls12_381>::empty();
+    y += (b, c2);
+    y += (a, c1);
+    vec![x, y]
+}
+fn marlin_comm_lin_lib(a: Fr, c1: &ark_poly_commit::marlin_pc::Commitment<Bls12_381>, b: Fr, c2: &ark_poly_commit::marlin_pc::Commitment<Bls12_381>)
+    -> Option<Vec<ark_poly_commit::marlin_pc::Commitment<Bls12_381>>> {
+    let plain = kzg_lin_lib(a, &c1.comm, b, &c2.comm);
+    let shifted = match (&c1.shifted_comm, &c2.shifted_comm) {
+        (Some(x), Some(y)) => Some(kzg_lin_lib(a, x, b, y)),
+        (None, None) => None,
+        _ => return None,
+    };
+    Some((0..2).map(|k| ark_poly_commit::marlin_pc::Commitment { comm: plain[k].clone(), shifted_comm: shifted.as_ref().map(|s| s[k].clone()) }).collect())
+}
+
 pub struct MarlinA;
 impl Adapter for MarlinA {
     type F = Fr; type P = UniPoly; type PC = MarlinPC;
@@ -151,6 +175,7 @@ impl Adapter for MarlinA {
         crate::pc::ser_obs("kzgvk", &vk.vk, out);
     }
     fn comm_lin(a: Fr, c1: &Cm<Self>, b: Fr, c2: &Cm<Self>) -> Option<Cm<Self>> { marlin_comm_lin(a, c1, b, c2) }
+    fn comm_lin_lib(a: Fr, c1: &Cm<Self>, b: Fr, c2: &Cm<Self>) -> Option<Vec<Cm<Self>>> { marlin_comm_lin_lib(a, c1, b, c2) }
     fn comm_is_identity(c: &Cm<Self>) -> Option<bool> { use ark_ec::AffineRepr; Some(c.comm.0.is_zero() && c.shifted_comm.as_ref().map(|s| s.0.is_zero()).unwrap_or(true)) }
     fn mutate_comm(kind: &str, cm: &LabeledCommitment<Cm<Self>>, args: &[String]) -> Option<LabeledCommitment<Cm<Self>>> {
         let mut c = cm.commitment().clone();
@@ -204,6 +229,7 @@ impl Adapter for SonicA {
         crate::pc::ser_obs("kzgpowers", &ck.powers(), out);
     }
     fn comm_lin(a: Fr, c1: &Cm<Self>, b: Fr, c2: &Cm<Self>) -> Option<Cm<Self>> { Some(ark_poly_commit::kzg10::Commitment(g1_lin(a, &c1.0, b, &c2.0))) }
+    fn comm_lin_lib(a: Fr, c1: &Cm<Self>, b: Fr, c2: &Cm<Self>) -> Option<Vec<Cm<Self>>> { Some(kzg_lin_lib(a, c1, b, c2)) }
     fn comm_is_identity(c: &Cm<Self>) -> Option<bool> { use ark_ec::AffineRepr; Some(c.0.is_zero()) }
     /// C08: without bound sum_i p_i*powers_of_g[i]; with bound d sum_i p_i*shifted_powers_of_g[max_bound - d + i]
     fn reference_commitment(ck: &CK<Self>, p: &UniPoly, b: Option<usize>, cm: &Cm<Self>, _st: &St<Self>) -> Option<bool> {
@@ -431,6 +457,7 @@ impl Adapter for Pst13A {
         out.obs1(&format!("{}.rv", name), "F", match pf.random_v { Some(r) => f_to_str(&r), None => "none".into() });
     }
     fn comm_lin(a: Fr, c1: &Cm<Self>, b: Fr, c2: &Cm<Self>) -> Option<Cm<Self>> { marlin_comm_lin(a, c1, b, c2) }
+    fn comm_lin_lib(a: Fr, c1: &Cm<Self>, b: Fr, c2: &Cm<Self>) -> Option<Vec<Cm<Self>>> { marlin_comm_lin_lib(a, c1, b, c2) }
     fn comm_is_identity(c: &Cm<Self>) -> Option<bool> { use ark_ec::AffineRepr; Some(c.comm.0.is_zero()) }
     /// C08: sum over the terms of coefficient * powers_of_g[term]
     fn reference_commitment(ck: &CK<Self>, p: &MVPoly, _b: Option<usize>, cm: &Cm<Self>, _st: &St<Self>) -> Option<bool> {
